@@ -234,4 +234,73 @@ theorem c19_gen_constants :
     Gen.Date.asNanosMillis = (1000, 1000000000, false) ∧ Gen.Date.initMillis = (1000, 1, true) := by
   decide
 
+/-! ### the formatters append -/
+
+theorem formatInto_cases (dt : DateTime) (f : Fmt) (short : Bool) (b : Buf) :
+    (∃ t, formatTextGen dt.gmt f short = some t ∧ ¬ (t.length + 1 > b.cap - b.data.length ∨ t.length = 0) ∧
+      formatInto dt f short b = .ok { data := b.data ++ t, cap := b.cap } ∧
+      formatUtc dt f short (b.cap - b.data.length) = .ok t) ∨
+    (∃ e, formatInto dt f short b = .error e ∧ formatUtc dt f short (b.cap - b.data.length) = .error e) := by
+  unfold formatInto formatUtc
+  cases h : formatTextGen dt.gmt f short with
+  | none => exact Or.inr ⟨.invalidArgument, rfl, rfl⟩
+  | some t =>
+    by_cases c : t.length + 1 > b.cap - b.data.length ∨ t.length = 0
+    · exact Or.inr ⟨.shortBuffer, by simp only [c, if_true], by simp only [c, if_true]⟩
+    · exact Or.inl ⟨t, rfl, c, by simp only [c, if_false], by simp only [c, if_false]⟩
+
+theorem c19_format_appends (dt : DateTime) (f : Fmt) (short : Bool) (b : Buf) :
+    formatInto dt f short b =
+      match formatUtc dt f short (b.cap - b.data.length) with
+      | .ok t => .ok { data := b.data ++ t, cap := b.cap }
+      | .error e => .error e := by
+  rcases formatInto_cases dt f short b with ⟨t, _, _, h1, h2⟩ | ⟨e, h1, h2⟩ <;> rw [h1, h2]
+
+theorem c19_format_capacity (t : Int) (h0 : 0 ≤ t) (h1 : t ≤ maxInstant) (f : Fmt) (short : Bool) (hf : f ≠ .autoDetect) (b : Buf) :
+    ∃ text, formatUtc (initEpochSecs t 0) f short 100 = .ok text ∧
+      (text.length + 1 ≤ b.cap - b.data.length →
+        formatInto (initEpochSecs t 0) f short b = .ok { data := b.data ++ text, cap := b.cap }) ∧
+      (b.cap - b.data.length < text.length + 1 → formatInto (initEpochSecs t 0) f short b = .error .shortBuffer) := by
+  unfold maxInstant at h1
+  obtain ⟨l1, l2, l3, l4, l5, l6⟩ := text_lengths t h0 h1 84
+  have key : ∀ txt : List Nat, formatText (gmtime t) f short = some txt → txt.length + 1 ≤ 100 → txt.length ≠ 0 →
+      formatUtc (initEpochSecs t 0) f short 100 = .ok txt ∧
+      (txt.length + 1 ≤ b.cap - b.data.length →
+        formatInto (initEpochSecs t 0) f short b = .ok { data := b.data ++ txt, cap := b.cap }) ∧
+      (b.cap - b.data.length < txt.length + 1 → formatInto (initEpochSecs t 0) f short b = .error .shortBuffer) := by
+    intro txt htxt hl hne
+    have hg : formatTextGen (initEpochSecs t 0).gmt f short = some txt := by
+      rw [formatTextGen_eq]; simpa [initEpochSecs, mkDateTime] using htxt
+    refine ⟨?_, ?_, ?_⟩
+    · have c : ¬ (txt.length + 1 > 100 ∨ txt.length = 0) := by omega
+      simp only [formatUtc, hg, c, if_false]
+    · intro hfit
+      have c : ¬ (txt.length + 1 > b.cap - b.data.length ∨ txt.length = 0) := by omega
+      simp only [formatInto, hg, c, if_false]
+    · intro hshort
+      have c : (txt.length + 1 > b.cap - b.data.length ∨ txt.length = 0) := by omega
+      simp only [formatInto, hg, c, if_true]
+  cases f with
+  | autoDetect => exact absurd rfl hf
+  | rfc822 =>
+    cases short with
+    | false =>
+      have e : (fmtRfc822 (gmtime t)).length = 29 := by
+        have : fmtRfc822 (gmtime t) = fmtRfc822Body (gmtime t) ++ [71, 77, 84] := by simp [fmtRfc822, fmtRfc822Body]
+        rw [this]; simp [l5]
+      exact ⟨_, key _ rfl (by omega) (by omega)⟩
+    | true => exact ⟨_, key (fmtRfc822Short (gmtime t)) rfl (by omega) (by omega)⟩
+  | iso8601 =>
+    cases short with
+    | false =>
+      have e : (fmtIso (gmtime t)).length = 20 := by simp [fmtIso, fmtIsoBody, l1]
+      exact ⟨_, key _ rfl (by omega) (by omega)⟩
+    | true => exact ⟨_, key (fmtIsoShort (gmtime t)) rfl (by omega) (by omega)⟩
+  | iso8601Basic =>
+    cases short with
+    | false =>
+      have e : (fmtBasic (gmtime t)).length = 16 := by simp [fmtBasic, fmtBasicBody, l2]
+      exact ⟨_, key _ rfl (by omega) (by omega)⟩
+    | true => exact ⟨_, key (fmtBasicShort (gmtime t)) rfl (by omega) (by omega)⟩
+
 end AwsVerif.Proofs.C19.Main
